@@ -51,8 +51,22 @@ COMMANDS = {
 }
 
 
+INITIAL = {
+    "Led": ["d = Led(9)", "d = Led()"],
+    "Servo": ["d = Servo(6)", "d = Servo(6, min_angle=15.0, max_angle=120.0)", "d = Servo(6, min_angle=-90, max_angle=90)", "d = Servo(6, min_pulse_us=700, max_pulse_us=2000)",
+              "d = Servo(6, min_angle=30, max_angle=150, min_pulse_us=1000, max_pulse_us=2000)"],
+    "DCMotor": ["d = DCMotor(2, 3, 5)"],
+}
+FIRST_COMMAND = {"Led": "d.toggle()", "Servo": "d.write(45)", "DCMotor": "d.invert()"}
+
+
 def actuator_scripts():
     out = {}
+    # the state every query reports BEFORE the first command (as constructed), and after one command
+    for kind, decls in INITIAL.items():
+        for k, decl in enumerate(decls):
+            lines = [decl] + [f"mon.write({g})" for g in GETTERS[kind]] + [FIRST_COMMAND[kind]] + [f"mon.write({g})" for g in GETTERS[kind]]
+            out[f"{kind}/initial-queries/{k}"] = IMPORTS + "\n".join(lines) + "\n"
     for kind, groups in COMMANDS.items():
         for gname, cmds in groups.items():
             lines = [DECL[kind]]
@@ -61,6 +75,14 @@ def actuator_scripts():
                 lines.append("mon.write('--')")
                 lines += [f"mon.write({g})" for g in GETTERS[kind]]
             out[f"{kind}/{gname}"] = IMPORTS + "\n".join(lines) + "\n"
+            # the same commands with every query stored in a variable first (the variable's declared type must hold the value)
+            if GETTERS[kind]:
+                lines = [DECL[kind]]
+                for c in cmds:
+                    lines.append(c)
+                    for k, g in enumerate(GETTERS[kind]):
+                        lines += [f"q{k} = {g}", f"mon.write(q{k})"]
+                out[f"{kind}/{gname}/queries-via-variables"] = IMPORTS + "\n".join(lines) + "\n"
             # the same commands inside the main loop (run-time state carried across passes)
             body = []
             for c in cmds[:4]:
